@@ -61,28 +61,36 @@ impl FileStack {
     }
 
     fn add_files(&mut self, paths: &[PathBuf], reports: &mut ReportCollection) {
+        self.add_paths(paths, true, reports);
+    }
+
+    /// Adds the given files, and the Circom files below the given directories, to the file
+    /// stack. A file which is `named` by the user is added whatever its extension. The files
+    /// found in a directory are added if they are Circom files.
+    fn add_paths(&mut self, paths: &[PathBuf], named: bool, reports: &mut ReportCollection) {
         for path in paths {
             if !path.exists() && path.extension().map_or(true, |extension| extension != "circom") {
-                // Files which are not Circom files are skipped, but only if they exist.
                 reports.push(FileOsError { path: path.display().to_string() }.into_report());
                 continue;
             }
             if path.is_dir() {
-                // Handle directories on a best effort basis only.
-                if let Ok(entries) = fs::read_dir(path) {
-                    let paths: Vec<_> = entries.flatten().map(|x| x.path()).collect();
-                    self.add_files(&paths, reports);
+                match fs::read_dir(path) {
+                    Ok(entries) => {
+                        let paths: Vec<_> = entries.flatten().map(|x| x.path()).collect();
+                        self.add_paths(&paths, false, reports);
+                    }
+                    Err(_) => {
+                        reports
+                            .push(FileOsError { path: path.display().to_string() }.into_report());
+                    }
                 }
-            } else if let Some(extension) = path.extension() {
+            } else if named || path.extension().map_or(false, |extension| extension == "circom") {
                 // Add Circom files to file stack.
-                if extension == "circom" {
-                    match fs::canonicalize(path) {
-                        Ok(path) => self.stack.push(path),
-                        Err(_) => {
-                            reports.push(
-                                FileOsError { path: path.display().to_string() }.into_report(),
-                            );
-                        }
+                match fs::canonicalize(path) {
+                    Ok(path) => self.stack.push(path),
+                    Err(_) => {
+                        reports
+                            .push(FileOsError { path: path.display().to_string() }.into_report());
                     }
                 }
             }
